@@ -3,6 +3,12 @@
 import json, subprocess
 
 CHECKS = {
+ "C19": ("exploration", "generated projects on disk; differential testing of the real `asca` binary (subprocess) against the library; conversion round trips",
+         "Generated rule / word / alias files are written to fresh directories and the release binary built from /repo's working tree is run on them (`run -r/-w/-l/-o`, `run -j`, `conv asca`, `conv json`); the output file must equal asca::run called in the harness on the intended content, nothing may be written when the library fails, and json -> files -> json must be the identity.",
+         "Trusted: the generator's own writers (documented file shapes only); the library linked into the harness is built from the same tree (with the hook feature). Timeouts give exit 2.", "DESIGN.md §5 C19"),
+ "C20": ("exploration", "generated project trees (chains, forks, filters, aliases, cycles); subprocess runs of `asca seq` / `conv tag` against the harness's own composition",
+         "Generated config trees with `%` chains and forks, `!`/`~` filters in mixed case, a deromaniser on the root tag and, in one case of six, a reference cycle or dangling reference are written to disk; `asca seq -o -y` (all tags and `-t T`) must write for every tag exactly the words obtained by composing asca::run over the filtered rule files as configured, `conv tag -r` must export a rule history that reproduces them, and invalid configs must be rejected with a non-zero exit and no crash.",
+         "Trusted: the harness's composition (filter semantics typed from doc-cli.md). Output files are compared as sequences of non-empty lines (the blank separator between appended word files is undocumented). Only substitution rules are generated so that no stage fails; tags whose intermediate output contains � have no staged result and are skipped for the export comparison.", "DESIGN.md §5 C20"),
  "C15": ("exploration", "generated romaniser / deromaniser tables over fresh strings; model rewrite of the default rendering + encode/decode equivalence",
          "Romaniser tables (plain IPA, groups, matrices, `$`; replacement, `+` suffix, `*`) are applied to the result of generated sound changes and compared with the harness's own rewrite of the default rendering of the structural result, while the alias-free run must equal the default rendering; deromaniser tables map fresh strings to segments (plain, long, stressed, sequences) and the encoded word must parse to the same structural word and give the same run result.",
          "Trusted: the 30-line model of the documented romanisation on the sub-domain where it is unambiguous (no length/stress/tone parameters in romaniser inputs, plain-pool words), the structural hook. Fresh strings are Cyrillic capitals / CJK, which no lexer or IPA table uses.", "DESIGN.md §5 C15"),
